@@ -1071,6 +1071,9 @@ def _process_add_event_tick(
     for step_name, step_config in state.config.steps.items():
         wait_conditions = state.workers[step_name].collected_waiters
         for wait_condition in wait_conditions:
+            if wait_condition.resolved_event is not None:
+                # Already resolved; the step is being replayed to pick it up.
+                continue
             is_match = type(tick.event) is wait_condition.waiting_for_event
             is_match = is_match and all(
                 getattr(tick.event, k, None) == v
